@@ -278,16 +278,20 @@ def preprocessor_history_lane(ctx):
     kw = fits.sdml_fix_balance(name, fits.base_kwargs(name, dataB), dataB)
     kw = fits.sdml_fix_balance(name, kw, data) if name.startswith('SDML') and False else kw
     args = index_args(name, data)
-    for hist in ('array->array', 'array->list', 'array->pickle->array', 'callable->array'):
+    for hist in ('array->array', 'array->list', 'array->pickle->array', 'callable->array', 'array->reversed view of it', 'reversed view->its base array'):
       ctx.count('preprocessor_history', 1)
       try:
         with warnings.catch_warnings():
           warnings.simplefilter('ignore')
           first = (lambda idx: A[idx]) if hist.startswith('callable') else A
+          if hist == 'reversed view->its base array':
+            first = B[::-1]                    # a view sharing the memory of the array that replaces it
           est = fits.make_estimator(name, dict(kw, preprocessor=first)).fit(*args)
           if 'pickle' in hist:
             est = pickle.loads(pickle.dumps(est))
           second = B.tolist() if hist.endswith('list') else B
+          if hist == 'array->reversed view of it':
+            second = A[::-1]                   # other points under the same indicators, in the same memory
           est.set_params(preprocessor=second)
           est.fit(*args)
           fresh = fits.make_estimator(name, dict(kw, preprocessor=second)).fit(*args)
@@ -299,7 +303,7 @@ def preprocessor_history_lane(ctx):
       for other, what in ((fresh, 'a fresh estimator constructed with the new preprocessor'), (cl, 'a clone')):
         if not np.array_equal(np.asarray(est.components_), np.asarray(other.components_), equal_nan=True):
           ctx.fail_input('preprocessor_history', '%s: fit, set_params(preprocessor=<other array>), fit with the same indicators learns another model than %s (history %s)' % (name, what, hist),
-                         dict(estimator=name, history=hist, A=A.tolist(), B=B.tolist()))
+                         dict(estimator=name, history=hist, A=A.tolist(), B=np.asarray(second).tolist()))
           break
 
 
